@@ -78,7 +78,10 @@ def rule_ttl_decision_final(run):
 
 
 def r1(run):
-    callers = C.callers_of(run.facts, C.INSERT_FRAME)
+    wrappers = C.insert_wrappers(run.facts)
+    callers = [(b, c) for (b, c) in C.callers_of(run.facts, C.INSERT_FRAME) if run.facts.enclosing_fn(b) not in wrappers]
+    for w in wrappers:
+        callers += C.callers_of(run.facts, w)    # the frame a forwarding wrapper stores is its caller's: the guard is owed there
     run.floor("Store::insert_frame call sites", len(callers), 2)
     for (b, c) in callers:
         fn = run.facts.enclosing_fn(b)
